@@ -210,6 +210,14 @@ def language_evaluation(chk, repo):
         expect_valueerror("decode_scene_id", f"ALOS2012345678-{bad}", f"{bad[2:4]}/{bad[4:6]} of 20{bad[:2]} is not a calendar date")
     for m in ("ALOS2012345678-14010", "ALOS2012345678-1401022", "ALOS201234567-140102", "ALOS2012345678_140102", "alos2012345678-140102", "ALOS2012345678-14O102", "ALOS20123456x8-140102", "ALOS2012345678-140102 ", ""):
         expect_valueerror("decode_scene_id", m, "it is not <mission 5><orbit 5><frame 4>-<yymmdd>")
+    # digits of other scripts are decimal digits for `\\d`, int() and strptime alike - but they are not the format's digits
+    base_sid = "ALOS2012345678-160229"
+    for pos in (5, 9, 10, 13, 15, 18, 20):
+        for alien in ("\u0666", "\uff12", "\u0967"):
+            expect_valueerror("decode_scene_id", base_sid[:pos] + alien + base_sid[pos + 1:], f"position {pos} holds the non-ASCII digit U+{ord(alien):04X}")
+    for m in ("B\u0663", "F\uff11"):
+        expect_valueerror("decode_scan_info", m, "the scan number is a non-ASCII digit")
+    expect_valueerror("decode_product_id", "WBDR1.\uff11RUD", "the processing level holds a non-ASCII digit")
     # ---- file names: components are decoded by their own decoder and merged
     pid_sample = ["".join(c) for c in (combos if thorough else combos[:: max(1, len(combos) // 60)])]
     sid, sdate = "ALOS2012345678-160229", datetime.datetime(2016, 2, 29)
